@@ -132,7 +132,7 @@ int vf_case_begin(const char *fmt, ...) {
 		if ((g_counter % g_nshards) != g_shard) return 0;
 		if (g_counter <= g_skip_until) return 0;
 		if (g_deadline_passed) { S->skipped_deadline++; return 0; }
-		if (g_deadline > 0 && (g_counter & 15) == 0 && now_s() > g_deadline) {
+		if (g_deadline > 0 && now_s() > g_deadline) {   /* checked for every case of this shard (the counter test used before let only shard 0 see it) */
 			g_deadline_passed = 1;
 			vf_inexhaustive("deadline reached in shard %d at enumeration index %ld", g_shard, g_counter);
 			S->skipped_deadline++;
